@@ -1,5 +1,6 @@
 import RlibModel.Model.F80
 import RlibModel.Model.F80Exact
+import RlibModel.Model.F80Prog
 /-! Line-protocol driver for engine `f80` (property C18).  See `harness/e_f80/src/main.rs` for the case syntax. -/
 open Rlib Rlib.F80
 
@@ -72,8 +73,117 @@ def chain (ar : String → F80 → F80 → Option F80) (acc : F80) : List String
         | some outs => some (show80 r :: outs)
   | _ => none
 
+
+/-! ### register programs (`pg`), see `Model/F80Prog.lean` -/
+
+def reg? (tok : String) : Option (Fin 4) :=
+  match tok with
+  | "0" => some 0
+  | "1" => some 1
+  | "2" => some 2
+  | "3" => some 3
+  | _ => none
+
+def binop? (tok : String) : Option BinOp :=
+  match tok with
+  | "+" => some .add
+  | "-" => some .sub
+  | "*" => some .mul
+  | "/" => some .div
+  | _ => none
+
+def asgop? (tok : String) : Option BinOp :=
+  match tok with
+  | "+=" => some .add
+  | "-=" => some .sub
+  | "*=" => some .mul
+  | "/=" => some .div
+  | _ => none
+
+def op? (part : String) : Option Op :=
+  match tokens part with
+  | ["init"] => some .init
+  | [o, d] =>
+    match reg? d with
+    | none => none
+    | some d =>
+      if o = "zero" ∨ o = "df" then some (.const d false)
+      else if o = "one" then some (.const d true)
+      else none
+  | [o, x, y] =>
+    match reg? x, reg? y with
+    | some x, some y =>
+      match asgop? o with
+      | some bo => some (.asg bo x y)
+      | none =>
+        if o = "neg" then some (.neg x y)
+        else if o = "abs" then some (.abs x y)
+        else if o = "rt" then some (.rt x y)
+        else if o = "cmp" then some (.cmp x y)
+        else if o = "cp" ∨ o = "cl" ∨ o = "cf" then some (.copy x y)
+        else none
+    | _, _ => none
+  | [o, d, a, b] =>
+    match reg? d, reg? a, reg? b with
+    | some d, some a, some b =>
+      match binop? o with
+      | some bo => some (.bin bo d a b)
+      | none =>
+        if o = "min" then some (.min d a b)
+        else if o = "max" then some (.max d a b)
+        else none
+    | _, _, _ => none
+  | _ => none
+
+def showObs : Obs → String
+  | .bits x => show80 x
+  | .value none => "nan"
+  | .value (some 0) => "zero"
+  | .value (some n) => toHex n 20
+  | .conv f x => s!"f64={show64 f},val={show80 x}"
+  | .rel l g le ge e n pc => s!"lt={b01 l},gt={b01 g},le={b01 le},ge={b01 ge},eq={b01 e},ne={b01 n},pc={showPc pc}"
+  | .hidden => "*"
+  | .unit => "-"
+
+def joinObs (l : List String) : String := if l.isEmpty then "empty" else " ".intercalate l
+
+def handlePg (line : String) : String :=
+  match splitOps line with
+  | [] => badLine line
+  | hdr :: parts =>
+    match tokens hdr with
+    | ["pg", mode, x0, x1, x2, x3] =>
+      if mode ≠ "m" ∧ mode ≠ "t" ∧ mode ≠ "c" then badLine line else
+      match operand? x0, operand? x1, operand? x2, operand? x3, parts.mapM op? with
+      | some a, some b, some c, some d, some ops =>
+        let R := Regs.ofList a.v b.v c.v d.v
+        let ms := runM R ops
+        let ss := runS R ops
+        -- mode `c`: the harness also runs the program on several threads at once; all runs must give the same answers
+        let tail := if mode = "c" then " mt=same" else ""
+        let raw := joinObs (ms.map (fun p => showObs p.1)) ++ tail
+        let view := joinObs (ms.map (fun p => showObs p.2)) ++ tail
+        let spec := joinObs (ss.map showObs) ++ tail
+        let canonical := a.canonical && b.canonical && c.canonical && d.canonical
+        answer3 (raw ++ " cw=037f") view (if canonical then spec else "any")
+      | _, _, _, _, _ => badLine line
+    | _ => badLine line
+
 def handle (line : String) : String :=
   match tokens line with
+  | "pg" :: _ => handlePg line
+  | ["fm", x] =>
+    -- formatting goes through `f64`: the harness compares every text with what std prints for the `f64` value (an
+    -- independent oracle inside the harness); here the `f64` value itself is modelled / specified
+    match operand? x with
+    | some a =>
+      let tail := "disp=same dbg=same show=same"
+      let s64 := match a.src64 with
+        | some x => show64 x
+        | none => show64 (specToF64 a.v)
+      let m := s!"f64={show64 (toF64 a.v)} {tail}"
+      answer3 m m (if a.canonical then s!"f64={s64} {tail}" else "any")
+    | none => badLine line
   | ["const"] =>
     -- `cw` = x87 control word read back after `f80_init()` (raw-only diagnostic: 64-bit precision, round to nearest, all masked)
     let v := s!"zero={show80 zero} one={show80 one} default={show80 zero}"
